@@ -72,7 +72,13 @@ def rand_other(rng: random.Random, ref: DFA, kinds: Sequence[str] = OTHER_KINDS)
     if q == "words_part":
         return dict(q=q, k=ke, n=rng.randint(0, 3))
     if q == "iter":
-        return dict(q=q, n=rng.choice([0, 1, 2, 5, 9]))
+        # words_of_length(i) builds level i of the word table for EVERY state: ask only for a prefix of the iteration
+        # that is reached within the lengths that are cheap to enumerate (a finite language ends after level n - 1)
+        want = rng.choice([0, 1, 2, 5, 9])
+        if not L.language_shape(ref)["finite"]:
+            from harness import dfa_query_lib2 as L2
+            want = min(want, sum(L2.forward_counts(ref, _max_enum_len(len(sy)))))
+        return dict(q=q, n=want)
     if q == "random":
         return dict(q=q, k=k, seed=rng.randrange(1 << 20))
     if q in ("succ", "pred", "succs", "preds"):
